@@ -456,7 +456,10 @@ def run(case):
                         sum(1 for l, w in env.writers.items() if l != "c" and not w.closing),
                         1 if h.client in h.transports else 0, 0 if cwriter.closing else 1,
                         sum(size - sem._value for sem in h.max_conns.values()),
-                        sum(len(sem._waiters or ()) for sem in h.max_conns.values()))
+                        sum(len(sem._waiters or ()) for sem in h.max_conns.values()),
+                        # per DIALLED address (the defaultdict's key), in the order of ADDR: slots taken, tasks queued
+                        [size - h.max_conns[a]._value if a in h.max_conns else 0 for k, a in ADDR.items() if a is not None],
+                        [len(h.max_conns[a]._waiters or ()) if a in h.max_conns else 0 for k, a in ADDR.items() if a is not None])
 
             for step in case["steps"]:
                 if task.done(): break
@@ -495,5 +498,93 @@ def run(case):
             return {"trace": env.trace, "returned": returned, "exc": exc, "at_return": at_return,
                     "max_open": {f"{a[0]}:{a[1]}": n for a, n in env.max_open.items()}, "size": size,
                     "crashes": env.crashes}
+        finally:
+            asyncio.open_connection = orig
+
+
+# ---- the REAL layer stack (NextLayer -> HttpLayer, regular mode) with hooks held across a client disconnect ---------------
+def run_real_layers(case):
+    """case["real"] = {"hold": [hook names held until released], "steps": [...]}.  Steps: ["cli", text] client bytes, ["ceof"],
+    ["conn", "ok"|"refuse"] complete the oldest pending upstream connect, ["srv", text] upstream bytes, ["seof"], ["release", name],
+    ["tick", seconds].  After the script: every held hook is released, 100 s pass.  Observed: hooks, every asyncio.open_connection
+    call with whether handle_client had already returned, transports / open sockets at return and at the end."""
+    from mitmproxy.proxy import layers
+    from mitmproxy.proxy.layers.http import HTTPMode
+    spec = case["real"]
+    with installed() as loop:
+        tr, gates, opened, pending = [], {}, [], collections.deque()
+        returned = [False]
+
+        class W:
+            def __init__(s, lab): s.lab, s.closing = lab, False
+            def get_extra_info(s, n, d=None): return {"peername": ("192.0.2.1", 5), "sockname": ("127.0.0.1", 8080)}.get(n, d)
+            def write(s, d): tr.append(["send", s.lab, len(d)])
+            def is_closing(s): return s.closing
+            def close(s):
+                if not s.closing: tr.append(["wclose", s.lab])
+                s.closing = True
+            def write_eof(s): pass
+            async def drain(s): pass
+
+        class H(server.LiveConnectionHandler):
+            async def handle_hook(self, hook):
+                tr.append(["hook", hook.name, 1 if returned[0] else 0])
+                if hook.name == "next_layer":
+                    (nl,) = hook.args(); nl.layer = layers.HttpLayer(nl.context, HTTPMode.regular)
+                if hook.name in spec.get("hold", []):
+                    f = loop.create_future(); gates.setdefault(hook.name, []).append(f); await f
+
+        async def fake_open(host, port, **kw):
+            tr.append(["open_connection", host, 1 if returned[0] else 0])
+            fut = loop.create_future(); pending.append(fut)
+            ok = await fut
+            if not ok: raise OSError("refused")
+            r = asyncio.StreamReader(); w = W(f"srv{len(opened)}"); opened.append((r, w)); return r, w
+
+        def next_connect(ok):
+            while pending:
+                f = pending.popleft()
+                if not f.done(): f.set_result(ok); return True
+            return False
+
+        orig = asyncio.open_connection; asyncio.open_connection = fake_open
+        try:
+            cr = asyncio.StreamReader(); cw = W("client")
+            h = H(cr, cw, make_opts(50), mode_specs.ProxyMode.parse("regular"))
+            at_return = {}
+
+            async def main():
+                await h.handle_client()
+                returned[0] = True
+                at_return.update(transports=len(h.transports), open=sum(1 for r, w in opened if not w.closing) + (0 if cw.closing else 1))
+            t = loop.create_task(main()); loop.pump()
+            for st in spec["steps"]:
+                k = st[0]
+                if k == "cli" and not cr.at_eof(): cr.feed_data(st[1].encode())
+                elif k == "ceof" and not cr.at_eof(): cr.feed_eof()
+                elif k == "conn": next_connect(st[1] == "ok")
+                elif k == "srv" and opened and not opened[-1][0].at_eof(): opened[-1][0].feed_data(st[1].encode())
+                elif k == "seof" and opened and not opened[-1][0].at_eof(): opened[-1][0].feed_eof()
+                elif k == "release":
+                    for f in gates.get(st[1], []):
+                        if not f.done(): f.set_result(None)
+                elif k == "tick": loop.advance(st[1])
+                loop.pump()
+            if not cr.at_eof(): cr.feed_eof(); loop.pump()
+            for _ in range(20):      # let everything pending fail / finish, then release what is still held
+                if not next_connect(False):
+                    fs = [f for l in gates.values() for f in l if not f.done()]
+                    if not fs: break
+                    fs[0].set_result(None)
+                loop.pump()
+            loop.advance(100); loop.pump()
+            for _ in range(20):
+                fs = [f for l in gates.values() for f in l if not f.done()]
+                if next_connect(False): pass
+                elif fs: fs[0].set_result(None)
+                else: break
+                loop.pump()
+            return {"real": True, "trace": tr, "returned": returned[0], "at_return": at_return,
+                    "at_end": {"transports": len(h.transports), "open": sum(1 for r, w in opened if not w.closing) + (0 if cw.closing else 1)}}
         finally:
             asyncio.open_connection = orig
